@@ -132,7 +132,7 @@ PROPS['C10'] = {
 }
 
 ARR_FUNCS = ['vflip', 'hflip', 'zflip', 'random_flip', 'transpose', 'rot90', '_pad', 'pad_with_params', 'pad',
-             'cutout', 'random_crop', 'center_crop', 'crop', 'clamping_crop']
+             'cutout', 'random_crop', 'center_crop', 'crop', 'clamping_crop', 'resize', '_resize', 'scale']
 BOX_FUNCS = ['bbox_vflip', 'bbox_hflip', 'bbox_zflip', 'bbox_flip', 'bbox_transpose', 'bbox_rot90',
              'normalize_bbox', 'denormalize_bbox', 'crop_bbox_by_coords', 'bbox_random_crop', 'bbox_center_crop',
              'bbox_crop', 'crop_and_pad_bbox', 'get_random_crop_coords', 'get_center_crop_coords']
@@ -268,7 +268,7 @@ PROPS['C12'] = {
 }
 
 MASK_FUNCS = ['vflip', 'hflip', 'zflip', 'random_flip', 'transpose', 'rot90', '_pad', 'pad_with_params', 'cutout',
-              'random_crop', 'center_crop', 'crop', 'clamping_crop']
+              'random_crop', 'center_crop', 'crop', 'clamping_crop', 'resize', 'scale']
 PROPS['C06'] = {
     'requires': MASK_FUNCS, 'corr': corr_multi(corr_multi(corr_fn('C06', MASK_FUNCS, 25, 500), corr_classtab()), corr_methods(2, 20)), 'search': 'C06',
     'trusted_base': GEOM_TRUSTED + CLASSTAB_TRUSTED + [
